@@ -103,6 +103,12 @@ where
         self.i
     }
 
+    /// Verification hook: stream position until which incoming data points are skipped.
+    #[cfg(feature = "verif")]
+    pub fn verif_skip_until(&self) -> usize {
+        self.skip_until
+    }
+
     /// Observe new data point.
     pub fn add(&mut self, obj: T) {
         let t = self.k * 4; // TODO: make this a parameter
